@@ -132,3 +132,217 @@ func (m *initBuf) Eval() (any, error) { return m.val, nil }
 type GoodInit struct{ aggBase }
 
 func (GoodInit) NewBuffer() (Buffer, error) { return &initBuf{val: int64(0)}, nil }
+
+// ---- E3: computed IsNullable vs. structurally NULL configurations of Eval
+
+type Branch struct{ Cond, Value Expression }
+
+func isTrue(v any) bool { b, ok := v.(bool); return ok && b }
+
+// CaseGood: no ELSE means NULL when no arm matches, and IsNullable says so.
+type CaseGood struct {
+	Branches []Branch
+	Else     Expression
+}
+
+func (c *CaseGood) IsNullable() bool {
+	for _, b := range c.Branches {
+		if b.Value.IsNullable() {
+			return true
+		}
+	}
+	return c.Else == nil || c.Else.IsNullable()
+}
+
+func (c *CaseGood) Eval(row []any) (any, error) {
+	for _, b := range c.Branches {
+		res, err := b.Cond.Eval(row)
+		if err != nil {
+			return nil, err
+		}
+		if isTrue(res) {
+			return b.Value.Eval(row)
+		}
+	}
+	if c.Else != nil {
+		return c.Else.Eval(row)
+	}
+	return nil, nil
+}
+
+// CaseNoElse: a missing ELSE is announced NOT NULL.
+type CaseNoElse struct {
+	Branches []Branch
+	Else     Expression
+}
+
+func (c *CaseNoElse) IsNullable() bool {
+	for _, b := range c.Branches {
+		if b.Value.IsNullable() {
+			return true
+		}
+	}
+	return c.Else != nil && c.Else.IsNullable()
+}
+
+func (c *CaseNoElse) Eval(row []any) (any, error) {
+	defer func() {}()
+	for _, b := range c.Branches {
+		res, err := b.Cond.Eval(row)
+		if err != nil {
+			return nil, err
+		}
+		if isTrue(res) {
+			return b.Value.Eval(row)
+		}
+	}
+	if c.Else != nil {
+		return c.Else.Eval(row)
+	}
+	return nil, nil
+}
+
+// OptArg: the optional argument is absent: NULL for every row, IsNullable only looks at the mandatory one.
+type OptArg struct {
+	Arg Expression
+	Opt Expression
+}
+
+func (o *OptArg) IsNullable() bool {
+	if o.Opt == nil {
+		return o.Arg.IsNullable()
+	}
+	return o.Arg.IsNullable() || o.Opt.IsNullable()
+}
+
+func (o *OptArg) Eval(row []any) (any, error) {
+	if o.Opt == nil {
+		return nil, nil
+	}
+	return o.Opt.Eval(row)
+}
+
+// Defensive: the nil test in Eval is defensive, IsNullable would panic on a nil child: not applicable.
+type Defensive struct{ Left, Right Expression }
+
+func (d *Defensive) IsNullable() bool { return d.Left.IsNullable() || d.Right.IsNullable() }
+func (d *Defensive) Eval(row []any) (any, error) {
+	if d.Left == nil || d.Right == nil {
+		return nil, nil
+	}
+	return d.Left.Eval(row)
+}
+
+// Flagged: a bool field decides; IsNullable ignores it.
+type Flagged struct {
+	Child    Expression
+	Disabled bool
+}
+
+func (f *Flagged) IsNullable() bool { return f.Child.IsNullable() }
+func (f *Flagged) Eval(row []any) (any, error) {
+	if f.Disabled {
+		return nil, nil
+	}
+	return f.Child.Eval(row)
+}
+
+// ---- E4: NULL in, NULL out
+
+// BinGood: NULL when either argument is NULL, nullable when either is.
+type BinGood struct{ Left, Right Expression }
+
+func (b *BinGood) IsNullable() bool { return b.Left.IsNullable() || b.Right.IsNullable() }
+func (b *BinGood) Eval(row []any) (any, error) {
+	l, err := b.Left.Eval(row)
+	if err != nil {
+		return nil, err
+	}
+	if l == nil {
+		return nil, nil
+	}
+	r, err := b.Right.Eval(row)
+	if err != nil {
+		return nil, err
+	}
+	if r == nil {
+		return nil, nil
+	}
+	return l, nil
+}
+
+func isNullType(e Expression) bool { return e == nil }
+
+// FormatLike: reports the nullability of the OTHER argument only.
+type FormatLike struct{ Left, Right Expression }
+
+func (f *FormatLike) IsNullable() bool {
+	if isNullType(f.Left) {
+		if isNullType(f.Right) {
+			return true
+		}
+		return f.Right.IsNullable()
+	}
+	return f.Left.IsNullable()
+}
+
+func (f *FormatLike) Eval(row []any) (any, error) {
+	l, err := f.Left.Eval(row)
+	if err != nil {
+		return nil, err
+	}
+	if l == nil {
+		return nil, nil
+	}
+	r, err := f.Right.Eval(row)
+	if err != nil {
+		return nil, err
+	}
+	if r == nil {
+		return nil, nil
+	}
+	return l, nil
+}
+
+// BothNeeded: nullable only when both arguments are.
+type BothNeeded struct{ Left, Right Expression }
+
+func (b *BothNeeded) IsNullable() bool { return b.Left.IsNullable() && b.Right.IsNullable() }
+func (b *BothNeeded) Eval(row []any) (any, error) {
+	l, err := b.Left.Eval(row)
+	if err != nil {
+		return nil, err
+	}
+	r, err := b.Right.Eval(row)
+	if err != nil {
+		return nil, err
+	}
+	if r == nil {
+		return nil, nil
+	}
+	return l, nil
+}
+
+// ViaChildren: consults its children through a collection: not decided.
+type ViaChildren struct{ A, B Expression }
+
+func (v *ViaChildren) Children() []Expression { return []Expression{v.A, v.B} }
+func (v *ViaChildren) IsNullable() bool {
+	for _, ch := range v.Children() {
+		if ch.IsNullable() {
+			return true
+		}
+	}
+	return false
+}
+
+func (v *ViaChildren) Eval(row []any) (any, error) {
+	a, err := v.A.Eval(row)
+	if err != nil {
+		return nil, err
+	}
+	if a == nil {
+		return nil, nil
+	}
+	return v.B.Eval(row)
+}
